@@ -134,7 +134,14 @@ def check(pid, tier):
         print(f'VIOLATION property={pid} replay={path}' + ('' if found else ' no-failing-input-found'))
         rcode = 1
     ev = C.write_evidence(ctx, 'proof', coverage, list(getattr(mod, 'ASSUMPTIONS', [])), 1 if red else 0)
-    print(f'{pid} {tier}: theorems {discharged}/{obligations}, correspondence cases {ctx.evaluations} '
+    n_items = len(tr['items'])
+    if ctx.untranslatable:
+        # the translator tie is degraded for these items: their generated definitions defer to the hand model, so the
+        # theorems about them no longer speak about the source; the correspondence sweep was widened instead
+        print(f'TIE-DEGRADED: property={pid} untranslatable={",".join(ctx.untranslatable)} '
+              f'(source shape not recognised by tools/gen_{pid.lower()}.py; hand model + widened correspondence only)')
+    print(f'{pid} {tier}: translated {n_items - len(ctx.untranslatable)}/{n_items} items, '
+          f'theorems {discharged}/{obligations}, correspondence cases {ctx.evaluations} '
           f'({ctx.distinct_nontrivial} distinct non-trivial), disagreements {len(ctx.disagreements)}, '
           f'predicate failures {len(ctx.pred_failures)}, {ev["wall_s"]} s')
     return rcode
